@@ -106,7 +106,7 @@ def main():
     bld = vbuild.build("plain")
     cases = make_cases(tr)
     F, tot = run_cases(PROP, bld, cases, script_fn, check_fn, batch_size=60)
-    if tot.get("member", 0) == 0 or tot.get("nonmember", 0) == 0:
+    if (tot.get("member", 0) == 0 or tot.get("nonmember", 0) == 0) and F.n_unlisted() == 0:
         raise Harness("did not observe both member and non-member cases: %s" % tot)
     rc = F.report()
     write_evidence(PROP, "exploration", tr, dict(
